@@ -112,7 +112,7 @@ int main(int argc, char** argv) {
              "distinct = FNV of case + resulting coordinates; trivial = zero offsets / tracking model none";
     R.sample_every = 20000;
     const bool T = R.thorough();
-    part_kick(T ? std::vector<unsigned>{12, 16, 17, 24} : std::vector<unsigned>{12});
-    part_fp(T ? std::vector<unsigned>{12, 16, 17, 32, 33, 48} : std::vector<unsigned>{12, 32}, T ? 32 : 4, T ? 400 : 200);
+    part_kick(T ? std::vector<unsigned>{12, 16, 17, 24} : std::vector<unsigned>{12, 13});
+    part_fp(T ? std::vector<unsigned>{12, 16, 17, 32, 33, 48} : std::vector<unsigned>{12, 13, 32}, T ? 32 : 4, T ? 400 : 200);
     return R.finish();
 }
